@@ -371,6 +371,10 @@ func genOverflowCase(rr *h.Rand, capacity int) hubCase {
 		cs.Ops = append(cs.Ops, hubOp{Op: "sub", Label: 2, Topics: []string{"*"}})
 	}
 	cs.Ops = append(cs.Ops, pubN("b", 1+rr.Intn(3)))
+	if rr.Chance(1, 3) {
+		// the hub is closed while a subscriber that was cut off is still in the list, followed by live ones
+		cs.Ops = append(cs.Ops, hubOp{Op: "sub", Label: 5, Topics: []string{"other"}}, hubOp{Op: "close"})
+	}
 	cs.Ops = append(cs.Ops, hubOp{Op: "unstall", Label: 1})
 	cs.Ops = append(cs.Ops, pubN("c", 2))
 	if cs.Cfg.Bolt {
@@ -597,6 +601,17 @@ func hubOracles(hr *hubRun, cs hubCase, o *gen.Oracle) []h.Violation {
 	}
 	if tot := int(metricValue(hr.reg, "mercure_subscribers_total")); tot != len(hr.conns) {
 		add("C20:total-differs-from-accepted-streams", fmt.Sprintf("mercure_subscribers_total=%d but %d streams were accepted", tot, len(hr.conns)))
+	}
+	// C15: once the hub is closed, every stream whose writer is not blocked has ended
+	if hr.stopped {
+		for _, lc := range hr.conns {
+			lc.mu.Lock()
+			stalled := lc.gate != nil
+			lc.mu.Unlock()
+			if !stalled && !lc.done.Load() {
+				add("C15:stream-open-after-close", fmt.Sprintf("the hub was closed but the stream of connection %d is still open", lc.label))
+			}
+		}
 	}
 	if up := int(metricValue(hr.reg, "mercure_updates_total")); up != hr.okPubs {
 		add("C20:updates-counter-differs-from-successful-publishes", fmt.Sprintf("mercure_updates_total=%d but %d publish requests were answered with success", up, hr.okPubs))
